@@ -10,6 +10,20 @@ func c06Other(name string, b []byte) []byte {
 	return o
 }
 
+// n - d for the P-384 group order n and a 48-byte big-endian d < n
+func c06Negate(d []byte) []byte {
+	n := []byte{0xff, 0xff, 0xff, 0xff, 0xff, 0xff, 0xff, 0xff, 0xff, 0xff, 0xff, 0xff, 0xff, 0xff, 0xff, 0xff, 0xff, 0xff, 0xff, 0xff, 0xff, 0xff, 0xff, 0xff,
+		0xc7, 0x63, 0x4d, 0x81, 0xf4, 0x37, 0x2d, 0xdf, 0x58, 0x1a, 0x0d, 0xb2, 0x48, 0xb0, 0xa7, 0x7a, 0xec, 0xec, 0x19, 0x6a, 0xcc, 0xc5, 0x29, 0x73}
+	out := make([]byte, 48)
+	var borrow uint16
+	for i := 47; i >= 0; i-- {
+		v := uint16(n[i]) - uint16(d[i]) - borrow
+		out[i] = byte(v)
+		borrow = (v >> 8) & 1
+	}
+	return out
+}
+
 func VerifC06_attester_authentic() {
 	vUnwind(40)
 	vUseModels("ecapi")
@@ -31,7 +45,7 @@ func VerifC06_attester_authentic() {
 	cache := &c06Cache{m: map[string]*ClientState{}}
 	attester := NewRateLimitedAttester(cache)
 
-	p := vSplit(vInt("perturbation", 0, 8), 0, 8)
+	p := vSplit(vInt("perturbation", 0, 9), 0, 9)
 	switch p {
 	case 0:
 		vReach("honest")
@@ -72,13 +86,23 @@ func VerifC06_attester_authentic() {
 		clientKey = vBytes("garbage_client_key", 0, 50)
 		vAssume(!vBytesEq(clientKey, st.ClientKey()))
 		vReach("malformed-client-key")
+	case 9: // the request of the client whose secret is the negative of this one's: its request key
+		// is the negative of this client's blinded key (same x coordinate, other y)
+		vAssume(secret[0] != 0xff)
+		st4, err := NewRateLimitedClientFromSecret(c06Negate(secret)).CreateTokenRequest(vBytesC("challenge4", 0, 1), vBytes("nonce4", 32, 32), blind, issuer.TokenKeyID(), issuer.TokenKey(), "a", issuer.NameKey())
+		vAssume(err == nil)
+		vAssume(!vBytesEq(st4.ClientKey(), clientKey))
+		req = *st4.Request()
+		vReach("negated-clients-request")
 	}
 	verr := attester.VerifyRequest(req, blind, clientKey, anon)
 	if p == 0 {
 		vAssert(verr == nil, "honest-request-accepted")
 		vAssert(cache.puts == 1, "honest-request-creates-state")
 	} else {
-		vAssert(verr != nil, "inauthentic-request-rejected")
+		// (one label per perturbation class: each class gets its own native replay)
+		names := []string{"", "request-key", "name-key-id", "ciphertext", "signature", "other-client", "wrong-blind", "wrong-client-key", "malformed-client-key", "negated-client"}
+		vAssert(verr != nil, "inauthentic-request-rejected-"+names[p])
 		vAssert(cache.puts == 0, "rejected-request-leaves-cache-untouched")
 	}
 }
